@@ -7,6 +7,7 @@ import TFV.Properties.Src.StandardX
 import TFV.Properties.Src.OnePointGP
 import TFV.Properties.Src.TreeCall
 import TFV.Properties.Src.TreeInit
+import TFV.Properties.Src.TreeEq
 #print axioms TFV.Tree.C09_scan_flat
 #print axioms TFV.Tree.C09_size_flat
 #print axioms TFV.Tree.C09_endSub
@@ -44,3 +45,5 @@ import TFV.Properties.Src.TreeInit
 #print axioms TFV.SrcTie.C09_src_tree_str
 #print axioms TFV.SrcTie.C09_src_tree_call_run
 #print axioms TFV.SrcTie.C09_src_init_n_args
+#print axioms TFV.SrcTie.C09_src_tree_eq
+#print axioms TFV.SrcTie.C09_src_tree_eq_ids
